@@ -2,7 +2,7 @@ from engine.core import Job
 META = dict(
     level="proof",
     claim="Literal mechanics proved over their full input domains on the real tokenize.c/unicode.c: UTF-8 encode/decode round trip, length and advance for every code point <= 0x10FFFF; decoder never steps over the terminating NUL and only accepts continuation bytes; every escape sequence of a 5-byte buffer denotes the C11 value and consumes exactly its characters, invalid \\\\x is diagnosed; integer literal suffix grammar and the C11 6.4.4.1p5 typing ladder for all 2^64 values x 4 bases x every suffix string.",
-    note="Assumed contract: strtoul returns the scanned value and consumes the digit run (libc). Not covered here: UTF-16/32 string readers, universal character names, adjacent-literal concatenation, floating literal rounding (libc strtold).",
+    note="Assumed contract: strtoul returns the scanned value and consumes the digit run (libc). Also: UTF-16/32 string readers transcode every code point of every UTF-8 length (surrogate pairs), and the three in-place source transformers (canonicalize_newline, remove_backslash_newline, convert_universal_chars) equal their spec on every small buffer (bounded). Not covered: \\U universal character names beyond the bounded alphabet, adjacent-literal concatenation, character constants, floating literal rounding (libc strtold).",
     functions=["tokenize.c:read_utf16_string_literal", "tokenize.c:read_utf32_string_literal", "tokenize.c:canonicalize_newline", "tokenize.c:remove_backslash_newline", "tokenize.c:convert_universal_chars", "tokenize.c:read_universal_char", "unicode.c:encode_utf8", "unicode.c:decode_utf8", "tokenize.c:read_escaped_char", "tokenize.c:from_hex", "tokenize.c:convert_pp_int", "tokenize.c:startswith"],
     trusted_base=["CBMC 6.11", "libc strtoul (assumed contract)", "CBMC's ctype/strncasecmp models"],
     assumptions=["strtoul(p,&end,base) returns an arbitrary value and end = start + digit run"],
@@ -22,7 +22,7 @@ def jobs(tier):
                           unwind=12, sample=f"u\"...\"/U\"...\" literal holding any code point of UTF-8 length {ln}", **P, **TK))
     for fn, nm, alpha, nb in ((0, "canonicalize_newline", '"\\r\\na\\\\"', 7), (1, "remove_backslash_newline", '"\\\\\\na\\r"', 7), (2, "convert_universal_chars", '"\\\\uU0e9\\n"', 8)):
         js.append(Job(name=f"inplace-{nm}", src="inplace.c", group="C11.5 source normalisation", defs={"FN": str(fn), "ALPHABET": "'" + alpha + "'", "NB": str(nb)}, units=["unicode.c", "type.c"],
-                      unwind=nb + 18, bounded=f"buffers of at most {nb} bytes over a {len(alpha)-10}-letter alphabet", sample=f"{nm} on every buffer of up to {nb} bytes", **P, **TK))
+                      unwind=nb + 18, bounded=f"buffers of at most {nb} bytes over a {len(eval(alpha))}-character alphabet", sample=f"{nm} on every buffer of up to {nb} bytes", **P, **TK))
     for b in (10, 8, 16, 2):
         js.append(Job(name=f"ppint-base{b}", src="ppint.c", group="C11.1 integer literal typing", defs={"BASE": str(b)}, units=["unicode.c"],
                       mode="legacy", replace=["strtoul"], cut=["error", "error_tok", "error_at", "warn_tok", "verror_at"], unwind=8, timeout=300, **TK,
